@@ -232,6 +232,9 @@ def run(pid, tier, seed):
     prop = load_prop(pid)
     findings = load_findings()
     blocks = list(prop.blocks(tier))
+    only = os.environ.get("VERIF_BLOCKS")  # dev aid: run the blocks whose repr contains this text (never used by registered commands)
+    if only:
+        blocks = [b for b in blocks if only in repr(b)]
     nblocks = len(blocks)
     order = list(range(nblocks))
     if nblocks:
@@ -344,7 +347,7 @@ def run(pid, tier, seed):
         "distinct_nontrivial": len(tot["nt_keys"]),
         "rule": prop.RULE,
         "samples": samples,
-        "exhaustive": bool(status == 0 and coverage_ok),
+        "exhaustive": bool(status == 0 and coverage_ok and not only),
         "bound": prop.BOUND.get(tier, ""),
         "blocks": nblocks,
         "distinct_outcomes": len(tot["outcomes"]),
